@@ -156,7 +156,7 @@ func (pl *plit) producedOutputs() []producedOutput {
 			if !ok || fd.Body == nil {
 				continue
 			}
-			fname := fd.Name.Name
+			fname := pl.anchorFuncName(fd.Name.Name)
 			ast.Inspect(fd.Body, func(n ast.Node) bool {
 				call, ok := n.(*ast.CallExpr)
 				if !ok {
@@ -166,7 +166,7 @@ func (pl *plit) producedOutputs() []producedOutput {
 				if !ok {
 					return true
 				}
-				switch sel.Sel.Name {
+				switch pl.anchorFuncName(sel.Sel.Name) {
 				case "completeStep":
 					if len(call.Args) != 4 {
 						return true
@@ -202,7 +202,7 @@ func (pl *plit) producedOutputs() []producedOutput {
 					}
 					for _, pr := range pl.branchPairs(fd, idVar, dataVar) {
 						pr.fn = fname
-						pr.how = sel.Sel.Name + " (branch assignment)"
+						pr.how = pl.anchorFuncName(sel.Sel.Name) + " (branch assignment)"
 						out = append(out, pr)
 					}
 				}
